@@ -14,7 +14,8 @@ HYPOTHESES = []
 NOT_YET_PROVED = []
 ASSUMPTIONS = []
 nontrivial = nontrivial_default
-EXTRA_MODULES = {"Props.TieCodec": "PyEcc.Tie."}
+EXTRA_MODULES = {"Props.TieCodec": "PyEcc.Tie.", "Props.TieBls": "PyEcc.Tie.", "Props.TieBlsAgg": "PyEcc.Tie."}
+
 CHUNK = 8
 P = O.BLS_P
 
